@@ -669,7 +669,7 @@ func (fr *frame) callSpecBuiltin(fn *ssa.Function, args []*Val, resT types.Type,
 	case "NoLocksHeld":
 		h := u.heapGet(st, "GH:locks", "(Array Int Int)")
 		return &Val{t: fmt.Sprintf("(= %s ((as const (Array Int Int)) 0))", h)}
-	case "sameSlice", "sameCerts", "sameElems", "sameStrings", "sameBytes", "sameAttrs", "sameChain", "sameFunc", "sameCipherFunc":
+	case "sameSlice", "sameCerts", "sameElems", "sameStrings", "sameBytes", "sameAttrs", "sameChain", "sameFunc", "sameCipherFunc", "sameClaims":
 		// identity of the two values (slice headers, or function values - which Go itself cannot compare)
 		return &Val{t: eq(fr.valTerm(args[0], st), fr.valTerm(args[1], st))}
 	case "ns":
